@@ -92,9 +92,9 @@ def main():
     # ---- the real code
     scs = []
 
-    def add(names, assets, sells, workers, report, old=0):
+    def add(names, assets, sells, workers, report, old=0, runs=1):
         scs.append({"id": len(scs) + 1, "names": names, "assets": assets, "old": old, "sells": sells, "workers": workers,
-                    "report": report, "lastDays": 30})
+                    "report": report, "lastDays": 30, "runs": runs})
     base = [1000, 1006, 1012, 1030, 994, 1001, 1020]
     assets3 = {"a": base, "b": [1000, 990, 1012, 1003, 1040, 1000, 1006], "c": [500, 503, 506, 515, 497, 520, 509]}
     wlist = [1, 2, 4] if tier == "quick" else [1, 2, 3, 4, 16]
@@ -107,6 +107,9 @@ def main():
             add(["a"], {"a": base}, [4], w, report, old=5)
             # an asset the repository holds, but with nothing inside the look-back window: it still gets its results
             add(["a", "stale", "c"], {"a": base, "stale": [], "c": assets3["c"]}, [1, 3], w, report, old=4)
+            # one report object serving two runs in a row: the second run, too, delivers exactly one result per pair
+            add(["a", "b", "c"], assets3, [1, 2, 3], w, report, runs=2)
+            add(["c", "zz", "a"], {"a": base, "c": assets3["c"]}, [2, 5], w, report, old=3, runs=2)
     # comparator witnesses (and a few seeded close arrangements) through the HTML report
     arr = [w_ for w_ in wits][:12] + [[0, 6, 12], [12, 6, 0], [6, 0, 12], [0, 0, 6], [30, 6, 12], [0, 6, 0], [6, 12, 0]]
     if tier == "thorough":
